@@ -1,9 +1,8 @@
-use std::cmp::Ordering;
 use std::hash::Hash;
 use std::marker::PhantomData;
 
 use chrono::{
-    DateTime as CrDateTime, Datelike, DurationRound, Months, NaiveDate, NaiveDateTime, NaiveTime,
+    DateTime as CrDateTime, Datelike, DurationRound, NaiveDate, NaiveDateTime, NaiveTime,
     Timelike, Utc,
 };
 use tea_error::{TResult, tbail};
@@ -241,21 +240,17 @@ impl<U: TimeUnitTrait> DateTime<U> {
         let mut dt = self.as_cr().unwrap();
         let dm = duration.months;
         if dm != 0 {
-            let (flag, dt_year) = dt.year_ce();
             if dm < 0 {
                 unimplemented!("not support year before ce or negative month")
             }
-            let dt_month = if flag {
-                (dt_year * 12 + dt.month()) as i32
-            } else {
-                dt_year as i32 * (-12) + dt.month() as i32
-            };
-            let delta_down = dt_month % dm;
-            dt = match delta_down.cmp(&0) {
-                Ordering::Equal => dt,
-                Ordering::Greater => dt - Months::new(delta_down as u32),
-                Ordering::Less => dt - Months::new((dm - delta_down.abs()) as u32),
-            };
+            // months since year 0, counted from January: the period containing dt starts at
+            // the greatest multiple of dm not after it, on the first day at midnight
+            let dt_month = dt.year() * 12 + dt.month0() as i32;
+            let start = dt_month - dt_month.rem_euclid(dm);
+            dt = NaiveDate::from_ymd_opt(start.div_euclid(12), start.rem_euclid(12) as u32 + 1, 1)
+                .expect("Rounding Error")
+                .and_time(NaiveTime::MIN)
+                .and_utc();
             if let Some(nd) = duration.inner.num_nanoseconds() {
                 if nd == 0 {
                     return dt.into();
